@@ -156,7 +156,7 @@ PROPERTIES = {
         'technique': TECH,
     },
     'C03': {
-        'units': [sm.RFCalcKick, sm.RFKickMapLinearCtor, sm.RFKickMapSinCtor, sm.DriftMapCtor, sm.KickMapCtor, sm.UpdateSM, sm.KickMapApply,
+        'units': [mainspec.MainMaps, sm.RFCalcKick, sm.RFKickMapLinearCtor, sm.RFKickMapSinCtor, sm.DriftMapCtor, sm.KickMapCtor, sm.UpdateSM, sm.KickMapApply,
                   sm.CalcCoefficiants, ps.RulerCtor, mainspec.MainConfig, mainspec.MainPhysics, mainspec.MainUnits, mainspec.MainWiring, mainspec.MapDispatch, io.ProgramOptionsGetters],
         'lemmas': [sm.lemmas_c03, sm.lemmas_weights],
         'level': 'other',
@@ -168,7 +168,7 @@ PROPERTIES = {
         'technique': TECH,
     },
     'C04': {
-        'units': [sm.FokkerPlanckCtor, sm.FokkerPlanckApply, ps.Variance, ps.Average, ps.RulerCtor, mainspec.MainPhysics, mainspec.MainWiring, mainspec.MapDispatch, io.ProgramOptionsGetters],
+        'units': [sm.FokkerPlanckCtor, sm.FokkerPlanckApply, ps.Variance, ps.Average, ps.RulerCtor, mainspec.MainPhysics, mainspec.MainWiring, mainspec.MapDispatch, mainspec.MainMaps, io.ProgramOptionsGetters],
         'lemmas': [sm.lemmas_fp, sm.lemmas_c04, ps.lemmas_ruler],
         'level': 'other',
         'claim': 'per-step moment law of the damping/diffusion operator the constructor builds (all four variants, both stencils): m0=1, mean -> (1-e1)*mean, second moment -> (1-2e1)v + 2e1 - c*e1*delta^2 with 0<=c<=1, '
@@ -182,13 +182,13 @@ PROPERTIES = {
         'units': SM_KICK + SM_FP + [sm.IdentityApply, sm.KickMapApplyTo, sm.FokkerPlanckApplyTo,
                                     ps.RulerCtor, ps.SimpsonWeights, ps.UpdateXProjection, ps.UpdateYProjection, ps.Integrate, ps.Normalize, ps.Average, ps.Variance, ps.Swap, ps.MakePSFromTXTLoop, ps.PhaseSpaceCtor, ps.PhaseSpaceCtor8, ps.PhaseSpaceCtor12, ps.PhaseSpaceCopyCtor, ps.CreateFromProjections, ps.Gaus,
                                     ef.PadBunchProfiles, ef.WakePotential, ef.UpdateCSR, ef.ElectricFieldCtor, ef.ElectricFieldCtor11, ef.InitWakeLossFFT,
-                                    mainspec.MainConfig, mainspec.MainTrackingFile, mainspec.MainStartDistribution, io.HDF5FileSources, io.HDF5AppendField, io.HDF5AppendTracks, io.ReadPhaseSpace, io.ProgramOptionsGetters] + Z_UNITS,
+                                    mainspec.MainConfig, mainspec.MainTrackingFile, mainspec.MainStartDistribution, mainspec.MainMaps, io.HDF5FileSources, io.HDF5AppendField, io.HDF5AppendTracks, io.ReadPhaseSpace, io.ProgramOptionsGetters] + Z_UNITS,
         'leaves': [leaf.UpperPow2Leaf, leaf.FPApplyToLeaf, leaf.KickApplyToLeaf, leaf.PSxLeaf, leaf.PSyLeaf],
         'lemmas': [],
         'level': 'other',
         'claim': 'every array subscript, pointer range (copy_n/fill_n/inner_product/FFT buffers), float-to-integer conversion, signed overflow, unsigned index product and division in the units under contract '
                  'is proved defined under the class invariants, and main establishes the padded-buffer precondition for every bucket; unbounded in all sizes',
-        'assumptions': [A_IDEAL, A_LIB, DROPS, 'libraries are memory safe when their stated preconditions hold', 'documented option domain (see MainConfig.requires and domain_after)'],
+        'assumptions': ['documented option domain assumed where main hands options to the map constructors unvalidated (slice main/maps): InterpolationPoints in 1..4, derivation 4 only with GridSize >= 4, FPType in 0..3, RF frequency and revolution part positive, three momentum-compaction terms', A_IDEAL, A_LIB, DROPS, 'libraries are memory safe when their stated preconditions hold', 'documented option domain (see MainConfig.requires and domain_after)'],
         'uncovered': ['functions not under contract: the Gaussian start distribution inside the PhaseSpace constructor (frame-only), the file-opening and line-counting prologue of makePSFromTXT (its particle loop is under contract with std::istream modelled by fail/eof flags), HDF5File, ProgramOptions, RotationMap, Display',
                       'uninitialised reads (tables are written before use by construction order, checked only where a unit reads what it wrote)',
                       ],
@@ -197,7 +197,7 @@ PROPERTIES = {
     },
     'C19': {
         'main_scenarios': ['rfkicks'],
-        'units': [mainspec.MainWiring, mainspec.MapDispatch, io.ProgramOptionsGetters, dynrf.CalcModulation, dynrf.DynRFLinearCtor, dynrf.DynRFSinCtor, dynrf.DynCalcKick, dynrf.DynApply, dynrf.GetPastModulation,
+        'units': [mainspec.MainWiring, mainspec.MapDispatch, mainspec.MainMaps, io.ProgramOptionsGetters, dynrf.CalcModulation, dynrf.DynRFLinearCtor, dynrf.DynRFSinCtor, dynrf.DynCalcKick, dynrf.DynApply, dynrf.GetPastModulation,
                   sm.RFCalcKick, sm.RFKickMapLinearCtor, sm.RFKickMapSinCtor],
         'lemmas': [dynrf.lemmas_c19],
         'level': 'other',
